@@ -293,3 +293,49 @@ func optionStructTypes(p *core.Program) map[*types.Named]bool {
 	}
 	return out
 }
+
+// valueSources lists the expressions a value can come from: a local variable
+// stands for all of its definitions (at any depth), except nil, declarations
+// without a value and assignments of the variable to itself; anything else
+// stands for itself. nil result: a definition could not be followed.
+func valueSources(info *types.Info, ld *core.LocalDefs, e ast.Expr, depth int) []ast.Expr {
+	e = ast.Unparen(e)
+	v := core.VarOf(info, e)
+	if v == nil || v.IsField() || depth > 4 {
+		return []ast.Expr{e}
+	}
+	defs := ld.All(v)
+	if len(defs) == 0 {
+		return []ast.Expr{e} // parameter or outer variable
+	}
+	var out []ast.Expr
+	for _, d := range defs {
+		if d.RHS == nil {
+			if _, isDecl := d.Stmt.(*ast.ValueSpec); isDecl {
+				continue
+			}
+			return nil
+		}
+		if _, isRange := d.Stmt.(*ast.RangeStmt); isRange {
+			return nil
+		}
+		r := ast.Unparen(d.RHS)
+		if core.IsNil(info, r) || core.VarOf(info, r) == v {
+			continue
+		}
+		if d.N > 1 {
+			// tuple definition: the call stands for the value only at position 0
+			if d.Idx != 0 {
+				return nil
+			}
+			out = append(out, r)
+			continue
+		}
+		sub := valueSources(info, ld, r, depth+1)
+		if sub == nil {
+			return nil
+		}
+		out = append(out, sub...)
+	}
+	return out
+}
